@@ -364,11 +364,11 @@ func verifSplitLines(b []byte) []string {
 }
 
 // verif_C09_client: Client.Auth against a scripted peer: k challenge steps
-// with arbitrary challenge and response octets (responses of 0..4 octets each,
+// with arbitrary challenge and response octets (responses of 0..4 - thorough 0..5 - octets each,
 // so that their base64 forms differ in length within one exchange), final 235
 // or 535, or a mechanism error at some step.
 func verif_C09_client() {
-	k := nondetInt(0, verifBound(2, 3))
+	k := nondetInt(0, 2)
 	m := &vsaslClient{errAt: -1}
 	switch verifChoice(3) {
 	case 0:
@@ -386,7 +386,7 @@ func verif_C09_client() {
 		script += "334 " + verifB64Encode(ch) + "\r\n"
 		// (0..4 octets: responses of different base64 lengths in one exchange,
 		// a later one shorter than an earlier one included)
-		m.resp = append(m.resp, nondetBytes(4))
+		m.resp = append(m.resp, nondetBytes(verifBound(4, 5)))
 	}
 	if k > 0 && nondetBool() {
 		m.errAt = nondetInt(0, k-1)
